@@ -158,7 +158,7 @@ class _TVal(T):
         return ValS
 
     def embed(self, st, v):
-        if isinstance(v, SV) and v.ty == TVal:
+        if isinstance(v, SV) and v.ty.sort() == ValS:
             return v.term
         if v is None:
             return val_none
@@ -171,7 +171,20 @@ class _TVal(T):
         raise Unsupported(f"cannot embed {v!r} as Val")
 
 
+class _TNd(_TVal):
+    """An opaque numpy array (content only; ``isinstance(v, ndarray)`` holds)."""
+
+    name = "Nd"
+
+
+class _TCallable(_TVal):
+    """An opaque callable stored in a container (listeners, evaluation sequences)."""
+
+    name = "Callable"
+
+
 TInt, TBool, TReal, TStr, TVal = _TInt(), _TBool(), _TReal(), _TStr(), _TVal()
+TNd, TCallable = _TNd(), _TCallable()
 val_none = z3.Const("val_none", ValS)
 val_of_int = z3.Function("val_of_int", z3.IntSort(), ValS)
 val_of_str = z3.Function("val_of_str", StrS, ValS)
@@ -306,7 +319,7 @@ class TDict(T):
         if isinstance(v, Ref):
             o = st.heap[v.id]
             if isinstance(o, DictObj):
-                if o.k != self.k or o.v != self.v:
+                if o.k.sort() != self.k.sort() or o.v.sort() != self.v.sort():
                     if o.is_empty_literal:
                         o = DictObj.empty(st, self.k, self.v, self.ordered)
                     else:
@@ -442,6 +455,11 @@ class TObj(T):
 
 
 SYMHEAP_SORTS: dict = {}
+GHOST_SORTS: dict = {}  # ghost variable name -> z3 sort (declared by contract modules)
+
+
+def declare_ghost(name: str, sort):
+    GHOST_SORTS[name] = sort
 
 
 class TAddr(T):
@@ -596,6 +614,16 @@ class PyObj(HeapObj):
         return PyObj(self.cls, dict(self.fields))
 
 
+def forall_pat(vs, body, pattern):
+    """ForAll with an explicit trigger when z3 accepts it (a beta-reduced lambda may not be one)."""
+    try:
+        if z3.is_app(pattern) and pattern.decl().kind() in (z3.Z3_OP_SELECT, z3.Z3_OP_UNINTERPRETED):
+            return z3.ForAll(vs, body, patterns=[pattern])
+    except z3.Z3Exception:
+        pass
+    return z3.ForAll(vs, body)
+
+
 class DictObj(HeapObj):
     """CPython dict: membership, values, size, and (when materialised) insertion order.
 
@@ -620,7 +648,7 @@ class DictObj(HeapObj):
 
     def wf_facts(self, st):
         k = z3.Const("k!wf", self.k.sort())
-        facts = [self.n >= 0, z3.ForAll([k], z3.Implies(self.member[k], self.n >= 1), patterns=[self.member[k]])]
+        facts = [self.n >= 0, forall_pat([k], z3.Implies(self.member[k], self.n >= 1), self.member[k])]
         w = st.fresh_const("wit", self.k.sort())
         facts.append(z3.Implies(self.n >= 1, self.member[w]))
         if self.keys is not None:
@@ -631,8 +659,8 @@ class DictObj(HeapObj):
         k = z3.Const("k!ord", self.k.sort())
         i = z3.Int("i!ord")
         return [
-            z3.ForAll([k], z3.Implies(self.member[k], z3.And(0 <= self.pos[k], self.pos[k] < self.n, self.keys[self.pos[k]] == k)), patterns=[self.pos[k]]),
-            z3.ForAll([i], z3.Implies(z3.And(0 <= i, i < self.n), z3.And(self.member[self.keys[i]], self.pos[self.keys[i]] == i)), patterns=[self.keys[i]]),
+            forall_pat([k], z3.Implies(self.member[k], z3.And(0 <= self.pos[k], self.pos[k] < self.n, self.keys[self.pos[k]] == k)), self.pos[k]),
+            forall_pat([i], z3.Implies(z3.And(0 <= i, i < self.n), z3.And(self.member[self.keys[i]], self.pos[self.keys[i]] == i)), self.keys[i]),
         ]
 
     def ensure_order(self, st):
@@ -685,7 +713,7 @@ class SetObj(HeapObj):
     def wf_facts(self, st):
         k = z3.Const("k!wfs", self.k.sort())
         w = st.fresh_const("wits", self.k.sort())
-        return [self.n >= 0, z3.ForAll([k], z3.Implies(self.member[k], self.n >= 1), patterns=[self.member[k]]), z3.Implies(self.n >= 1, self.member[w])]
+        return [self.n >= 0, forall_pat([k], z3.Implies(self.member[k], self.n >= 1), self.member[k]), z3.Implies(self.n >= 1, self.member[w])]
 
     def clone(self):
         c = SetObj(self.k, self.member, self.n)
